@@ -58,6 +58,10 @@ def generate(ck):
     ]
     descs.append({"cls": "single", "table": {"kind": "synthetic", "family": "falling", "prm": [0.5, 0.9, 0.5], "n": 200, "p_lo": 50.0, "p_hi": 9000.0, "grid": "uniform", "seed": 0}, "p_i": 8500.0, "p_f": 1500.0, "r": 8, "t_end": 0.6, "theta": 0.2})
     descs.append({"cls": "single", "table": {"kind": "synthetic", "family": "const-diffusivity", "prm": [0.3, 0.6, 0.2], "n": 200, "p_lo": 50.0, "p_hi": 9000.0, "grid": "uniform", "seed": 0}, "p_i": 8000.0, "p_f": 2000.0, "r": 8, "t_end": 2.0, "coarse_nt": 41})
+    # the same problem on a table whose pseudopressure is referenced to a pressure between p_f and p_i
+    # (negative scaled pseudopressure at the fracture face): the scaled problem does not depend on it
+    descs.append({"cls": "single", "table": {"kind": "synthetic", "family": "const-diffusivity", "prm": [0.3, 0.6, 0.2], "n": 200, "p_lo": 50.0, "p_hi": 9000.0, "grid": "uniform", "seed": 0, "datum": 0.4}, "p_i": 8000.0, "p_f": 2000.0, "r": 8, "t_end": 5.0})
+    descs.append({"cls": "single", "table": {"kind": "synthetic", "family": "falling", "prm": [0.5, 0.9, 0.5], "n": 200, "p_lo": 50.0, "p_hi": 9000.0, "grid": "uniform", "seed": 0, "datum": 0.5}, "p_i": 8500.0, "p_f": 1500.0, "r": 8, "t_end": 4.0})
     descs.append(dict(descs[0], decoy=True, t_end=5.0))
     descs.append(dict(descs[3], decoy=True, t_end=4.0))
     n = 2 if ck.tier == "quick" else 200
